@@ -84,13 +84,15 @@ pub fn leaf(kind_probe_only: bool) -> BoxedStrategy<Node> {
     if kind_probe_only {
         len.prop_map(|len| Node::Leaf { len, kind: LeafKind::Probe }).boxed()
     } else {
-        (0u64..40, 0usize..3, 0usize..4)
+        (0u64..40, 0usize..5, 0usize..4)
             .prop_map(|(l, k, extra)| Node::Leaf {
                 len: Some(l),
                 kind: match k {
                     0 => LeafKind::Probe,
                     1 => LeafKind::FromIter,
-                    _ => LeafKind::FromInterleaved { extra },
+                    2 => LeafKind::FromInterleaved { extra },
+                    3 => LeafKind::FromIterRevive { nones: 1 + extra as u8 },
+                    _ => LeafKind::FromInterleavedRevive { nones: 1 + extra as u8 },
                 },
             })
             .boxed()
@@ -118,6 +120,108 @@ pub fn tree(depth: u32, probe_only: bool) -> BoxedStrategy<Node> {
             ]
         })
         .boxed()
+}
+
+// ---------------------------------------------------------------- clip_amp over the full range
+
+/// clip_amp is the one adaptor with arithmetic of its own (negation, comparison): drive it with
+/// full-range values incl. MIN / MAX of every format
+#[derive(Clone, Debug, Serialize, Deserialize)]
+pub struct ClipCase {
+    pub kind: vp_core::fmt::Kind,
+    /// threshold in the signed companion (raw / bits), >= 0
+    pub thresh: i128,
+    pub vals: Vec<i128>,
+}
+
+fn clip_dec(k: vp_core::fmt::Kind, e: i128) -> vp_core::fmt::Val {
+    use vp_core::fmt::{Kind, Val};
+    match k {
+        Kind::Int { .. } => Val::I(e),
+        Kind::F32 => Val::F32(f32::from_bits(e as u32)),
+        Kind::F64 => Val::F64(f64::from_bits(e as u64)),
+    }
+}
+
+fn clip_typed<S>(c: &ClipCase, st: &mut Stats) -> CheckResult
+where
+    S: vp_core::fmt::Fmt + dasp_frame::Frame<Sample = S>,
+    <S as dasp_sample::Sample>::Signed: vp_core::fmt::Fmt,
+{
+    use vp_core::fmt::{self, Fmt, Val};
+    let k = S::KIND;
+    let sk = k.signed_companion();
+    let t = clip_dec(sk, c.thresh);
+    let frames: Vec<S> = c.vals.iter().map(|e| S::from_val(clip_dec(k, *e))).collect();
+    let mut sig = dasp_signal::from_iter(frames.clone()).clip_amp(<<S as dasp_sample::Sample>::Signed as Fmt>::from_val(t));
+    st.nt(true);
+    st.class("clip_amp over the full value range");
+    for (i, e) in c.vals.iter().enumerate() {
+        let v = clip_dec(k, *e);
+        let sg = fmt::conv(k, v, sk).ok_or("bad case")?;
+        let clipped = match (sg, t) {
+            (Val::I(a), Val::I(t)) => Val::I(a.clamp(-t, t)),
+            (Val::F32(a), Val::F32(t)) => Val::F32(if a > t { t } else if a < -t { -t } else { a }),
+            (Val::F64(a), Val::F64(t)) => Val::F64(if a > t { t } else if a < -t { -t } else { a }),
+            _ => return Err("bad case: threshold variant".into()),
+        };
+        let exp = fmt::conv(sk, clipped, k).ok_or("bad case")?;
+        let got = Fmt::to_val(sig.next());
+        let same = match (got, exp) {
+            (Val::I(a), Val::I(b)) => a == b,
+            (Val::F32(a), Val::F32(b)) => a == b,
+            (Val::F64(a), Val::F64(b)) => a == b,
+            _ => false,
+        };
+        ensure!(same, "{}: clip_amp({:?}) of frame {} = {:?} gives {:?}, the signed amplitude limited to [-t, t] is {:?}", k.name(), t, i, v, got, exp);
+    }
+    Ok(())
+}
+
+pub fn check_clip(c: &ClipCase, st: &mut Stats) -> CheckResult {
+    use dasp_sample::{I24, I48, U24, U48};
+    use vp_core::fmt::Fmt;
+    macro_rules! go { ($($T:ty),*) => { $( if c.kind == <$T as Fmt>::KIND { return clip_typed::<$T>(c, st); } )* }; }
+    go!(i8, i16, I24, i32, I48, i64, u8, u16, U24, u32, U48, u64, f32, f64);
+    Err("bad case: unknown format".into())
+}
+
+fn clip_cases(seed: u64) -> Vec<ClipCase> {
+    use vp_core::fmt::{boundary_raws, Kind, INT_KINDS};
+    let mut out = Vec::new();
+    let mut s = seed | 1;
+    let mut xs = move || {
+        s ^= s << 13;
+        s ^= s >> 7;
+        s ^= s << 17;
+        s
+    };
+    for &k in &INT_KINDS {
+        let sk = k.signed_companion();
+        let mut vals = boundary_raws(k);
+        for _ in 0..40 {
+            let span = (k.max_raw() - k.min_raw() + 1) as u128;
+            vals.push(k.min_raw() + (((xs() as u128) << 64 | xs() as u128) % span) as i128);
+        }
+        let mut ts: Vec<i128> = vec![0, 1, 2, sk.max_raw(), sk.max_raw() - 1, sk.max_raw() / 2, sk.max_raw() / 2 + 1];
+        for b in 1..(sk.bits() - 1) {
+            ts.push(1i128 << b);
+        }
+        for _ in 0..8 {
+            ts.push(((xs() as u128 % (sk.max_raw() as u128 + 1)) as i128).max(0));
+        }
+        for t in ts {
+            out.push(ClipCase { kind: k, thresh: t, vals: vals.clone() });
+        }
+    }
+    for (k, mk) in [(Kind::F32, 0u8), (Kind::F64, 1u8)] {
+        let enc = |x: f64| if mk == 0 { (x as f32).to_bits() as i128 } else { x.to_bits() as i128 };
+        let vals: Vec<i128> = [0.0, -0.0, 1.0, -1.0, 0.5, -0.5, 0.999, -0.999, 3.5, -3.5, 1e-30, -1e-30, 1e30, -1e30].iter().map(|x| enc(*x)).collect();
+        for t in [0.0, 0.25, 0.5, 1.0, 2.0, 1e-20, 1e20] {
+            out.push(ClipCase { kind: k, thresh: enc(t), vals: vals.clone() });
+        }
+    }
+    out
 }
 
 pub fn run(ctx: &mut Ctx) {
@@ -162,4 +266,9 @@ pub fn run(ctx: &mut Ctx) {
         }
     }
     ctx.enumerate("catalogue-single-and-pairs", true, cases.into_iter(), check);
+
+    // clip_amp on full-range values (MIN, MAX, equilibrium, powers of two) of every format x boundary thresholds
+    ctx.require_class("clip_amp over the full value range");
+    let cc = clip_cases(ctx.sub_seed("clip"));
+    ctx.enumerate("clip-amp-full-range", false, cc.into_iter(), check_clip);
 }
